@@ -438,12 +438,16 @@ func (c *Ctx) encoderWrites(fn *ssa.Function) []*core.Call {
 // complitOrStoredField: value of field name of the object v points to as seen at instruction `at`: the latest store that dominates it (composite literal initialisation or a later assignment).
 func complitOrStoredFieldAt(v ssa.Value, name string, at ssa.Instruction) ssa.Value {
 	v0 := core.Strip(v)
-	al, ok := v0.(*ssa.Alloc)
-	if !ok || al.Referrers() == nil {
+	switch v0.(type) {
+	case *ssa.Alloc, *ssa.Parameter: // an object built here, or one handed to this helper and completed here
+	default:
+		return nil
+	}
+	if v0.Referrers() == nil {
 		return nil
 	}
 	var best *ssa.Store
-	for _, r := range *al.Referrers() {
+	for _, r := range *v0.Referrers() {
 		if fa, ok := r.(*ssa.FieldAddr); ok && fieldNameOf(fa.X.Type(), fa.Field) == name && fa.Referrers() != nil {
 			for _, rr := range *fa.Referrers() {
 				if st, ok := rr.(*ssa.Store); ok && st.Addr == ssa.Value(fa) && core.Dominates(st, at) {
